@@ -96,6 +96,7 @@ fn exec(n: usize, vars: &BddVariableSet, pool: &[Bdd], op: &str) -> Option<Bdd> 
 }
 
 pub fn run(key: &str, a: &[String], out: &mut Out) {
+    out.begin(key, a);
     match key {
         "C02.prog" => {
             let n: usize = a[0].parse().unwrap();
